@@ -3,7 +3,7 @@
    operator `dx k` on scalar fields (linearity is a hypothesis of the theorems; flow_derivatives' finite-difference /
    convolution operators are linear).  Definitions only. *)
 From Coq Require Import ZArith List Bool.
-From DV Require Import Base.Field Base.LinAlg Gen.FlowDeriv.
+From DV Require Import Base.Field Base.LinAlg Model.BCH Gen.FlowDeriv Gen.FlowBCH.
 Import ListNotations.
 Local Open Scope fld_scope.
 
@@ -15,17 +15,26 @@ Variable dx : nat -> sf -> sf.            (* partial derivative along spatial ax
 
 Definition vf2 := (sf * sf)%type.
 Definition vf3 := (sf * sf * sf)%type.
-Definition lie2 (v u : vf2) : vf2 :=
+(* general form: dxv differentiates the first argument v, dxu the second argument u *)
+Definition lie2g (dxv dxu : nat -> sf -> sf) (v u : vf2) : vf2 :=
   let '(v0, v1) := v in let '(u0, u1) := u in
-  let g := fun p => gen_lie2 (dx 0 v0 p) (dx 1 v0 p) (dx 0 v1 p) (dx 1 v1 p) (dx 0 u0 p) (dx 1 u0 p) (dx 0 u1 p) (dx 1 u1 p)
+  let g := fun p => gen_lie2 (dxv 0%nat v0 p) (dxv 1%nat v0 p) (dxv 0%nat v1 p) (dxv 1%nat v1 p) (dxu 0%nat u0 p) (dxu 1%nat u0 p) (dxu 0%nat u1 p) (dxu 1%nat u1 p)
                              (v0 p) (v1 p) (u0 p) (u1 p) in
   (fun p => nth 0 (g p) 0, fun p => nth 1 (g p) 0).
-Definition lie3 (v u : vf3) : vf3 :=
+Definition lie3g (dxv dxu : nat -> sf -> sf) (v u : vf3) : vf3 :=
   let '(v0, v1, v2) := v in let '(u0, u1, u2) := u in
-  let g := fun p => gen_lie3 (dx 0 v0 p) (dx 1 v0 p) (dx 2 v0 p) (dx 0 v1 p) (dx 1 v1 p) (dx 2 v1 p) (dx 0 v2 p) (dx 1 v2 p) (dx 2 v2 p)
-                             (dx 0 u0 p) (dx 1 u0 p) (dx 2 u0 p) (dx 0 u1 p) (dx 1 u1 p) (dx 2 u1 p) (dx 0 u2 p) (dx 1 u2 p) (dx 2 u2 p)
+  let g := fun p => gen_lie3 (dxv 0%nat v0 p) (dxv 1%nat v0 p) (dxv 2%nat v0 p) (dxv 0%nat v1 p) (dxv 1%nat v1 p) (dxv 2%nat v1 p) (dxv 0%nat v2 p) (dxv 1%nat v2 p) (dxv 2%nat v2 p)
+                             (dxu 0%nat u0 p) (dxu 1%nat u0 p) (dxu 2%nat u0 p) (dxu 0%nat u1 p) (dxu 1%nat u1 p) (dxu 2%nat u1 p) (dxu 0%nat u2 p) (dxu 1%nat u2 p) (dxu 2%nat u2 p)
                              (v0 p) (v1 p) (v2 p) (u0 p) (u1 p) (u2 p) in
   (fun p => nth 0 (g p) 0, fun p => nth 1 (g p) 0, fun p => nth 2 (g p) 0).
+Definition lie2 := lie2g dx dx.
+Definition lie3 := lie3g dx dx.
+(* lie_bracket as coded: the derivative operator (finite differences of `mode` / `spacing` / `stride`, Gaussian smoothing of
+   `sigma`, ...) is a function dxo of WHICH of the caller's options reach flow_derivatives; each Jacobian uses the operator
+   of the options the source forwards for it (generated: Gen/FlowBCH.v) *)
+Variable dxo : lopts -> nat -> sf -> sf.
+Definition lie2_code := lie2g (dxo gen_lie_opts_first_arg) (dxo gen_lie_opts_second_arg).
+Definition lie3_code := lie3g (dxo gen_lie_opts_first_arg) (dxo gen_lie_opts_second_arg).
 
 Definition sadd (f g : sf) : sf := fun p => f p + g p.
 Definition sscale (c : K) (f : sf) : sf := fun p => c * f p.
@@ -36,6 +45,7 @@ Definition vscale3 (c : K) (a : vf3) : vf3 := (sscale c (fst (fst a)), sscale c 
 (* equality of vector fields = equality at every sample point *)
 Definition veq2 (a b : vf2) : Prop := forall p, fst a p = fst b p /\ snd a p = snd b p.
 Definition veq3 (a b : vf3) : Prop := forall p, fst (fst a) p = fst (fst b) p /\ snd (fst a) p = snd (fst b) p /\ snd a p = snd b p.
-Definition linear_op : Prop :=
-  (forall k f g p, dx k (sadd f g) p = dx k f p + dx k g p) /\ (forall k c f p, dx k (sscale c f) p = c * dx k f p).
+Definition linear_opg (d : nat -> sf -> sf) : Prop :=
+  (forall k f g p, d k (sadd f g) p = d k f p + d k g p) /\ (forall k c f p, d k (sscale c f) p = c * d k f p).
+Definition linear_op : Prop := linear_opg dx.
 End Lie.
